@@ -80,10 +80,16 @@ def run(ctx):
                                    "how": "work/bin/clientharness c27 -replay <this file>: ops (kind,id) pairs in case.l (0 Subscribe, 1 ForgetSubscription, 2 Cancel), first case.p.seq ops sequential, the rest concurrent; publish answers per case.s.script (O = held until the calls are issued)"}):
             new += 1
 
-    usable = []
+    usable, stress = [], []
     for o in obs:
         if o.get("done") is None:
             report("harness/" + (o.get("panic") or o.get("err") or "?")[:60], "child failed: %s %s" % (o.get("err"), o.get("panic")), o)
+            continue
+        if o["case"]["s"].get("kind") == "stress":
+            stress.append(o)
+            if not all(o["done"]) or o.get("subs_blocked"):
+                report("blocked/stress", "with %d subscriptions, %d goroutines calling ForgetSubscription and a publish error for all subscriptions arriving, calls stopped returning: writers returned=%s subs_blocked=%s" % (
+                    o["case"]["p"].get("nsubs"), o["case"]["p"].get("writers"), o["done"], o.get("subs_blocked")), o)
             continue
         usable.append(o)
         shape = "".join("SFC"[k] for k in o["case"]["l"][0::2])
@@ -120,10 +126,11 @@ def run(ctx):
     ctx.coverage.update({
         "evaluations": len(obs),
         "distinct_nontrivial": len(progs),
-        "rule": "programs: Subscribe 1 sequentially, then 2..4 concurrent operations drawn from {Subscribe, ForgetSubscription, Cancel} x ids {1,2} with seeded start delays, publish scripts of 0..3 answers (first answer held until the calls are issued); plus the corpus witness of the fixed deadlock and 8 runs of the lost-resume witness; one child process per program; distinct = distinct (operation list, script)",
+        "rule": "programs: Subscribe 1 sequentially, then 2..4 concurrent operations drawn from {Subscribe, ForgetSubscription, Cancel} x ids {1,2} with seeded start delays, publish scripts of 0..3 answers (first answer held until the calls are issued); plus 3 stress runs (48 subscriptions, 4 goroutines write-locking subMux, a PublishResponse with a Bad ServiceResult and SubscriptionID 0), the corpus witness of the fixed deadlock and 8 runs of the lost-resume witness; one child process per program; distinct = distinct (operation list, script)",
         "samples": [{k: o.get(k) for k in ("case", "done", "outstanding", "subs", "subs_blocked")} for o in usable[:3] + usable[-2:]],
         "terminal_classes": dict(collections.Counter("done=%s outstanding=%s subs=%d" % (all(o["done"]), o["outstanding"], len(o["subs"])) for o in usable)),
         "traces_validated_against_impl": len(usable),
+        "stress_runs": len(stress),
         "model_impl_mismatches": len(mism),
     })
     ctx.assumptions += [
